@@ -34,6 +34,7 @@ class Ref(object):
         self.item_action = item_action
         self.trans = {}        # tid -> transcript
         self.outcomes = {}     # tid -> ["ok", v] | ["exc", key]
+        self.gens = {}         # (tid, gid) -> Values an async generator iterated by hand has not delivered yet
         self.defs = {}         # tid -> (task, scope) created by "mk", not yet evaluated
         self.order = []        # tids in evaluation (sequential start) order
         self.ystructs = {}
@@ -138,10 +139,49 @@ class Ref(object):
                 got.append(["probe", self.probe_value])
             elif op == "cancel":
                 pass
+            elif op == "genstart":
+                self.gens[(tid, st["gid"])] = [["g", i, ["v", st["kind"], i]] for i in range(st["n"] + (1 if st["mode"] == "span" else 0))]
+            elif op == "gennext":
+                rest = self.gens.get((tid, st["gid"]), [])
+                got.append(["gen", rest[:st["count"]]])
+                del rest[:st["count"]]
             elif op == "mk":
                 self.defs[st["task"]["id"]] = (st["task"], {"sv": dict(scope["sv"]), "attr": dict(scope["attr"])})
             else:
                 raise AssertionError(op)
+
+    # ---- library tools: what the documented behaviour of each tool gives sequentially ------------
+    def tool(self, s):
+        name = s[1]
+        iv = lambda kind, arg: ["v", kind, arg]
+        if name == "dd":
+            k, kind = s[2], s[3]
+            if k % 4 == 3:
+                return ["exc", ["dd", k]]
+            if k % 4 == 2:
+                raise NotImplementedError("the outcome of a deduplicated body re-entering itself from a failure handler is not specified")
+            return ["ok", ["dd", k, iv(kind, k), ["dd-inner", k] if k % 4 == 1 else None]]
+        if name == "alru":
+            return ["ok", ["alru", s[2], iv(s[3], s[2])]]
+        if name == "agen":
+            return ["ok", [["g", i, iv(s[3], i)] for i in range(s[2] + (1 if s[5] == "span" else 0))]]
+        if name in ("amap", "asorted", "amin", "amax", "afilter"):
+            k, n, kind = s[2], s[3], s[4]
+            xs = list(range(k + n - 1, k - 1, -1))
+            if name == "amap":
+                return ["ok", list(xs)]
+            if name == "afilter":
+                return ["ok", [x for x in xs if x % 2 == 0]]
+            if name == "asorted":
+                return ["ok", sorted(xs)]
+            if not xs:
+                return ["exc", "ValueError"]
+            return ["ok", min(xs) if name == "amin" else max(xs)]
+        if name == "retry":
+            return ["ok", ["retry", s[2], 2, iv(s[3], s[2])]]
+        if name == "cwc":
+            return ["ok", ["plain", s[2], iv(s[3], s[2])]]
+        raise AssertionError(name)
 
     # ---- structures ---------------------------------------------------------------
     def struct(self, s, scope):
@@ -191,6 +231,8 @@ class Ref(object):
             return ["ok", ["lazy", s[2]]] if s[1] == "ok" else ["exc", ["lazy", s[2]]]
         if tag == "slazy":
             return ["ok", ["slazy", s[2]]] if s[1] == "ok" else ["exc", ["slazy", s[2]]]
+        if tag == "tool":
+            return self.tool(s)
         if tag == "bad":
             return ["exc", "TypeError"]
         if tag == "afn":
